@@ -40,6 +40,11 @@ type c01World struct {
 	Prio3     int      `json:"priority_h3"`
 	SlowSQL   bool     `json:"sql_threads_stuck"` // replicas' SQL threads do not apply during the procedure
 	AsyncLagS int      `json:"async_repl_mon_delay_s"`
+	// Flap: this host's mysqld refuses connections when the manager takes its snapshot of the cluster
+	// (it does not answer the health check) and accepts them again from the first state-changing
+	// statement of the iteration on (a flapping or overloaded node): a member that was not frozen is
+	// not frozen
+	Flap string `json:"host_unreachable_at_the_snapshot_only,omitempty"`
 }
 
 type c01Case struct {
@@ -149,6 +154,25 @@ func c01Run(r *vt.Run, c c01Case) (points []sim.Point, devDesc string, found []c
 			for i := range wd.Reps {
 				s := w.Servers[fmt.Sprintf("h%d", i+2)]
 				s.ReplMon, s.ReplMonTS = true, base-float64(wd.AsyncLagS)
+			}
+		}
+		if wd.Flap != "" {
+			s3 := w.Servers[wd.Flap]
+			s3.Up = false
+			restored := false
+			w.Chooser = func(pend []*sim.Call) int {
+				if !restored {
+					for _, p := range pend {
+						if p.Kind == "sql" && p.Mut {
+							s3.Up, restored = true, true
+							break
+						}
+					}
+				}
+				if w.Policy == 1 {
+					return len(pend) - 1
+				}
+				return 0
 			}
 		}
 		h.InjectHealth()
@@ -413,6 +437,17 @@ func c01Worlds(thorough bool) []c01World {
 		ws = append(ws, c01World{N: 3, Mode: "async", Kind: "auto-dead", List: full, Ahead: 2, Reps: []c01Rep{{0, 2}, {0, 0}}, Prio3: 10, SlowSQL: true, AsyncLagS: 5})
 		ws = append(ws, c01World{N: 3, Mode: "async", Kind: "auto-dead", List: full, Ahead: 2, Reps: []c01Rep{{0, 2}, {0, 0}}, Prio3: 10, SlowSQL: true, AsyncLagS: 20})
 		ws = append(ws, c01World{N: 3, Mode: "semisync1", Kind: "from1", Force: true, List: full, Ahead: 1, Reps: []c01Rep{{0, 1}, {0, 0}}})
+		// a member that does not answer the health check of the iteration but answers again during the
+		// procedure (with and without the master's tail)
+		for _, k := range kinds {
+			for _, fl := range []string{"h1", "h3"} {
+				if fl == "h1" && (k == "auto-dead" || k == "forced-dead") {
+					continue
+				}
+				ws = append(ws, c01World{N: 3, Mode: "semisync1", Kind: k, List: full, Ahead: 2, Reps: []c01Rep{{0, 0}, {0, 2}}, Flap: fl})
+				ws = append(ws, c01World{N: 3, Mode: "semisync1", Kind: k, List: full, Ahead: 2, Reps: []c01Rep{{0, 2}, {0, 0}}, Flap: fl})
+			}
+		}
 		// the async allowed-lag exception belongs to AUTOMATIC failover only: every other request kind
 		// with a lagging preferred candidate inside the allowed lag
 		for _, k := range []string{"forced", "forced-dead", "from1", "to3", "auto-hung"} {
